@@ -218,7 +218,9 @@ impl fmt::Display for Formatter {
                     }
                     Token::DayOfYearInteger => {
                         write_sep(f, i, &self.format)?;
-                        write!(f, "{:03}", self.epoch.day_of_year().floor() as u16)?
+                        // Whole days since the start of the year, counted with integers (day_of_year() is an
+                        // f64, which rounds the last nanoseconds of a day up to the next day).
+                        write!(f, "{:03}", self.epoch.duration_in_year().decompose().1 + 1)?
                     }
                     Token::DayOfYear => {
                         write_sep(f, i, &self.format)?;
@@ -289,7 +291,9 @@ impl fmt::Display for Formatter {
                     }
                     Token::DayOfYearInteger => {
                         write_sep(f, i, &self.format)?;
-                        write!(f, "{:03}", self.epoch.day_of_year().floor() as u16)?
+                        // Whole days since the start of the year, counted with integers (day_of_year() is an
+                        // f64, which rounds the last nanoseconds of a day up to the next day).
+                        write!(f, "{:03}", self.epoch.duration_in_year().decompose().1 + 1)?
                     }
                     Token::DayOfYear => {
                         write_sep(f, i, &self.format)?;
